@@ -8,7 +8,8 @@ RULE = ('cases = generated source G-SEL spec x all its feasible final instances 
         'orders) x a generated supplementary graph with 1-3 selection choices (nested: a choice under an option of an '
         'earlier one) each mapped by an option mapping (incl. the None entry for inactive source choices) or an ordered '
         'existence mapping, mappings registered in a generated order, nested choices also below a node that options of two '
-        'different choices derive; negative variants: unmapped choice, duplicate mapping, missing None, non-final source; oracle '
+        'different choices derive, in a third of the positive cases a second supplementary graph is chained onto a choice of '
+        'the first and resolved from the first one\'s result; negative variants: unmapped choice, duplicate mapping, missing None, non-final source; oracle '
         '= mapping model on the reference architecture (expected option per active supplementary choice, resolved node '
         'set = supplementary closure), errors expected for the negative variants, SupResolveError accepted only where the '
         'model says the selected option is ambiguous; one evaluation = one (source architecture, resolve); non-trivial = '
@@ -68,7 +69,16 @@ def _case(draw, tier):
     neg = draw(st.sampled_from([None, None, None, None, 'unmapped', 'dup', 'missing_none', 'nonfinal']))
     # the order in which the mappings are registered (add_mapping) is free
     map_order = draw(st.permutations(list(range(n_sup))))
-    return {'src': src, 'sup': sup_choices, 'neg': neg, 'sup_edges': sup_edges, 'map_order': list(map_order)}
+    # chained: a second supplementary graph whose source is the first one (1 in 3 of the positive cases)
+    chain = None
+    if neg is None and draw(st.integers(0, 2)) == 0:
+        j = draw(st.integers(0, n_sup-1))
+        n2 = draw(st.integers(2, 3))
+        chain = {'on': j, 'n_opts': n2,
+                 'table': {str(o): draw(st.integers(0, n2-1)) for o in range(sup_choices[j]['n_opts'])},
+                 'none': draw(st.integers(0, n2-1))}
+    return {'src': src, 'sup': sup_choices, 'neg': neg, 'sup_edges': sup_edges, 'map_order': list(map_order),
+            'chain': chain}
 
 
 def strategy(tier):
@@ -124,6 +134,35 @@ def build_sup(case, b_src):
             sup.add_mapping(choice_nodes[ch['id']], b_src.dsg, mapping)
     sup = sup.set_start_nodes({nodes['r']})
     return sup, nodes, choice_nodes
+
+
+def build_chain(case, sup, nodes, choice_nodes):
+    """Second-level supplementary graph: one choice mapped onto choice `on` of the first supplementary graph"""
+    from adsg_core.graph.sup import SupDSG, SupNode, SupSelChoiceOptionMapping
+    ch = case['chain']
+    tgt = case['sup'][ch['on']]
+    sup2 = SupDSG()
+    root = SupNode('r2')
+    sup2.add_node(root)
+    opts = [SupNode(f'w{j}') for j in range(ch['n_opts'])]
+    cn = sup2.add_selection_choice('w', root, opts)
+    table = {nodes[f'{tgt["id"]}o{k}']: opts[v] for k, v in ((int(k), v) for k, v in ch['table'].items())}
+    table[None] = opts[ch['none']]
+    sup2.add_mapping(cn, sup, SupSelChoiceOptionMapping(choice_nodes[tgt['id']], table))
+    return sup2.set_start_nodes({root})
+
+
+def expected_chain(case, exp_nodes):
+    ch = case['chain']
+    tgt = case['sup'][ch['on']]
+    sel = [k for k in range(tgt['n_opts']) if f'{tgt["id"]}o{k}' in exp_nodes]
+    if tgt['origin'] not in exp_nodes:
+        idx = ch['none']
+    elif len(sel) != 1:
+        return None
+    else:
+        idx = ch['table'][str(sel[0])]
+    return {'r2', f'w{idx}'}
 
 
 def expected(case, src_spec, names, sel_edges):
@@ -245,6 +284,19 @@ def check_case(case):
         res.sample = {'case': case, 'outcome': f'rejected: {msg[:100]}'}
         return res
 
+    sup2 = None
+    if case.get('chain'):
+        try:
+            sup2 = build_chain(case, sup, nodes, choice_nodes)
+            res.classes.append('chained_sup_built')
+        except RuntimeError as e:
+            # the first-level choice was auto-resolved / removed while initialising: nothing to chain onto
+            res.classes.append('chained_sup_rejected')
+        except Exception as e:  # noqa
+            if exc_sig(e).endswith('@harness'):
+                raise
+            res.add(viol('sup_build_unexpected_exception', f'chained: {type(e).__name__}: {e}',
+                         sig=f'sup_build_unexpected_exception:chained:{exc_sig(e)}', data=d0))
     n_eval = 0
     if neg == 'nonfinal':
         if not b.dsg.final:
@@ -301,6 +353,23 @@ def check_case(case):
         if got != exp:
             res.add(viol('resolved_to_wrong_option', f'source nodes={sorted(names)} sel={sel_edges}: resolved '
                                                      f'{sorted(got)} expected {sorted(exp)}', data=d0))
+        elif sup2 is not None:
+            exp2 = expected_chain(case, exp)
+            n_eval += 1
+            try:
+                out2 = sup2.resolve(out)
+                got2 = {n.name for n in out2.graph.nodes if hasattr(n, 'name') and not hasattr(n, 'decision_sort_key')}
+                if exp2 is not None and (got2 != exp2 or not out2.final):
+                    res.add(viol('chained_resolved_to_wrong_option', f'source nodes={sorted(names)}: first level '
+                                                                     f'{sorted(got)}, second level {sorted(got2)} expected '
+                                                                     f'{sorted(exp2)} final={out2.final}', data=d0))
+            except Exception as e:  # noqa
+                if exc_sig(e).endswith('@harness'):
+                    raise
+                if exp2 is not None:
+                    res.add(viol('chained_resolve_failed', f'source nodes={sorted(names)} first level {sorted(got)}: '
+                                                           f'{type(e).__name__}: {e}',
+                                 sig=f'chained_resolve_failed:{exc_sig(e)}', data=dict(d0, msg=str(e)[:300])))
         if len(res.violations) > 5:
             break
     res.evaluations = max(1, n_eval)
